@@ -77,7 +77,14 @@ AgentCloses ==
     /\ phase' = "closed" /\ table' = FALSE /\ toClient' = Append(toClient, "eof")
     /\ UNCHANGED <<sc, toAgent>> /\ Log("AgentCloses")
 
-Next == Handshake \/ AgentAnswer \/ Relay \/ ClientCloses \/ AgentCloses
+(* the operator kills the proxy ("socks kill <port>") while the connection is relaying or still waiting for the agent's
+   connect result: the client's connection ends, the socket leaves the table, the agent is told to close its side *)
+OperatorKills ==
+    /\ phase \in {"requested", "relaying"}
+    /\ phase' = "closed" /\ table' = FALSE
+    /\ toClient' = Append(toClient, "eof") /\ toAgent' = Append(toAgent, "close")
+    /\ UNCHANGED sc /\ Log("OperatorKills")
+Next == Handshake \/ AgentAnswer \/ Relay \/ ClientCloses \/ AgentCloses \/ OperatorKills
 Spec == Init /\ [][Next]_vars
 -----------------------------------------------------------------------------
 (* C15, per connection *)
